@@ -400,6 +400,15 @@ func (u Unit) args(base *gorm.DB, soft bool) (interface{}, []interface{}) {
 		}
 		return renderExpr(u.Ast, u), nil
 	case "group":
+		if u.Multi && argForm(u.Sub) {
+			// the members given as several arguments of one call: Where(group, expr, group ...)
+			var all []interface{}
+			for _, s := range u.Sub {
+				q, _ := s.args(base, soft)
+				all = append(all, q)
+			}
+			return all[0], all[1:]
+		}
 		sub := base
 		for _, s := range u.Sub {
 			sub = s.apply(sub, base, soft)
@@ -440,6 +449,19 @@ func setField(a, b **int64, s **string, c *Node) {
 }
 
 // apply performs the call on tx. base is the reusable root handle (for grouped sub-builders).
+// argForm: every member can be passed as a condition argument of its own (a sub-builder or a clause expression)
+func argForm(sub []Unit) bool {
+	if len(sub) < 2 {
+		return false
+	}
+	for _, s := range sub {
+		if s.Conn != "W" || !(s.Form == "group" || (s.Form == "expr" && !s.Multi)) {
+			return false
+		}
+	}
+	return true
+}
+
 func (u Unit) apply(tx, base *gorm.DB, soft bool) *gorm.DB {
 	q, a := u.args(base, soft)
 	switch u.Conn {
@@ -606,6 +628,10 @@ func randUnit0(r *rand.Rand, depth int, allowGroup bool) Unit {
 			}
 			sub = append(sub, su)
 		}
-		return Unit{Form: "group", Sub: sub}
+		g := Unit{Form: "group", Sub: sub}
+		if argForm(sub) && r.Intn(2) == 0 {
+			g.Multi = true
+		}
+		return g
 	}
 }
